@@ -1,25 +1,13 @@
 package c12
 
 import (
-	"encoding/json"
-	"fmt"
-	"os"
-	"path/filepath"
-	"sync"
 	"testing"
-
-	"go.lstv.dev/util/size"
 
 	"verifharness/vkit"
 )
 
 // Native coverage-guided fuzz target (thorough tier): arbitrary bytes and a rule word go through the same oracle as the
 // generated documents (json.Valid + ordered member walk + text/arithmetic rules), under MaxObjectKeys 16 and 2.
-
-var (
-	fuzzOnce sync.Once
-	fuzzRun  *vkit.Run
-)
 
 func FuzzSizeJSON(f *testing.F) {
 	for _, s := range []string{"10", `"1 KiB"`, `{"value":1,"unit":"KiB"}`, `{"unit":"MB","value":3,"x":[1,{"y":null}]}`, ` {"VALUE":5,"Unit":"B"} `, `{"value":1,"unit":"kB"`, `{"value":1,"unit":"kB"}}`, "10 x", `"1kB" 2`,
@@ -32,26 +20,13 @@ func FuzzSizeJSON(f *testing.F) {
 		if len(in) > 16<<10 {
 			return
 		}
-		fuzzOnce.Do(func() { fuzzRun = vkit.Start("C12") })
 		for _, mk := range []int{16, 2} {
 			restore := configure(mk)
-			w := fuzzRun.NewW()
+			w := vkit.FuzzW("C12")
 			c := Case{Input: vkit.B(in), Rule: rule & 15, MaxKeys: mk}
 			judge(c, w)
 			restore()
-			if class, detail, ok := w.FirstFailure(); ok {
-				dir := os.Getenv("VERIF_REPLAY_DIR")
-				if dir == "" {
-					dir = "/verif/replays"
-				}
-				_ = os.MkdirAll(dir, 0o755)
-				cj, _ := json.Marshal(c)
-				path := filepath.Join(dir, fmt.Sprintf("C12-fuzz-%016x.json", vkit.Hash64(string(cj))))
-				body, _ := json.MarshalIndent(map[string]any{"property": "C12", "class": class, "detail": detail, "case": json.RawMessage(cj), "found_by": "native fuzzing"}, "", " ")
-				_ = os.WriteFile(path, body, 0o644)
-				t.Fatalf("\nVIOLATION property=C12 replay=%s\n  class=%s\n  %s", path, class, detail)
-			}
+			vkit.FuzzReport(t, "C12", w, c)
 		}
-		_ = size.DefaultRule
 	})
 }
